@@ -133,6 +133,14 @@ def run(spec, ctx):
         if e0:
             cands += ["%08X" % eid, ("%08x" % eid), "0x%08X" % eid]
         cands += ["%08X" % rng.randrange(1 << 32), "123", "%09X" % rng.randrange(1 << 36), "zzzzzzzz"]
+        digits = [t.name for t in top if len(t.name) >= 12 and t.name[:12].isdigit()]
+        if digits:
+            # an id with leading zeros whose significant digits occur in some file name (time stamp part) - no file is stored under it
+            nm = rng.choice(digits)
+            k = rng.randrange(0, 8)
+            short = nm[k:k + rng.choice([2, 3, 4])]
+            if not any(short.rjust(8, "0") in t.name for t in top):
+                cands += [short.rjust(8, "0"), "0x" + short.rjust(8, "0")] * 2
         for idarg in rng.sample(cands, min(3, len(cands))):
             observe(ctx, d, ["-p", d.root, "-d", idarg], "delete", idarg, i)
         if rng.random() < 0.5:
